@@ -143,25 +143,51 @@ def oracle(c, h=2.0 ** -12):
     # curvature-scaled tolerance: |f''| h^2/6 truncation + rounding
     f2 = abs(f1 - 2 * d.cost(s, p) + f0) / (h * h)
     tol = 1e-5 * (1 + abs(num)) + 4 * f2 * h
+    # the difference quotient cannot resolve less than a few units in the last place of the cost itself
+    tol += 8 * np.finfo(float).eps * max(abs(f1), abs(f0), 1.0) / h
     if abs(num - g[k]) > tol:
       return 'slot %d: reported marginal cost %.9g but central difference of cost is %.9g (h=2^-12, tol %.2g)' % (k, g[k], num, tol)
   return None
 
 
 # ---- the three numerically differentiated preference functions: reals-only model, interval-arithmetic correspondence -------------
+TVAR_FINDING = 'tvar-deriv-probe-hits-zero-total'
+
+
+def witness_fails(f):
+  if f.get('id') != TVAR_FINDING:
+    return True
+  w = f['witness']
+  L = {'cls': 'ADevice', 'n': len(w['s']), 'id': 'a', 'bounds': [(F(-4), F(4))] * len(w['s']), 'cbounds': None, 'cb_kind': 'none',
+       'f': ('tvar', F(w['c'])), 'ucons': []}
+  try:
+    lg.build(L).deriv(np.array(fl([F(v) for v in w['s']])), 0)
+  except ZeroDivisionError:
+    return True
+  return False
+
+
 def extra_correspondence(rng, tier):
   import transeval as te
   n = {'quick': 45, 'thorough': 600}.get(tier, 45)
   name = 'correspondence:C01:transcendental-functions'
+  known = any(f.get('id') == TVAR_FINDING for f in core.load_findings(ID))
   cases, props, owner = [], [], []
   dist = {}
+  skipped_known = 0
   for i in range(n):
     c = te.gen_leaf(rng, i)
     L = c['leaf']
     d = lg.build(L)
     s, p = np.array(fl(c['s'])), np.array(fl(c['p']))
     cost = float(d.cost(s.copy(), p.copy()))
-    dv = np.array(d.deriv(s.copy(), p.copy()), dtype=float).reshape(-1)
+    try:
+      dv = np.array(d.deriv(s.copy(), p.copy()), dtype=float).reshape(-1)
+    except ZeroDivisionError:
+      if known and c['trans'] == 'tvar':
+        skipped_known += 1        # open finding: a numdifftools probe point of TemporalVariance.deriv has zero total
+        continue
+      dv = np.array([float('nan')] * L['n'])
     if not (np.isfinite(cost) and np.all(np.isfinite(dv)) and dv.shape == (L['n'],)):
       cases.append(c)
       props.append('(0 = 1)')      # non-finite value at a differentiable point: reported as a disagreement
@@ -189,7 +215,7 @@ def extra_correspondence(rng, tier):
     broken.append({'kind': 'correspondence', 'name': name,
                    'detail': '%d of %d cases disagree with the model of Model/Trans.v (interval evaluation); first: %s' % (
                        len(bad_cases), len(cases), __import__('json').dumps(case_to_json(cases[bad_cases[0]]))[:500])})
-  notes = {'transcendental': {'cases': len(cases), 'propositions': len(props), 'disagreeing': len(bad_cases), 'seconds': round(secs, 1),
+  notes = {'transcendental': {'cases': len(cases), 'skipped_in_known_finding_region': skipped_known, 'propositions': len(props), 'disagreeing': len(bad_cases), 'seconds': round(secs, 1),
                               'distribution': dist,
                               'rule': 'ADevice over InformationEntropy / TemporalVariance / CobbDouglas, n in 1..6, dyadic flows of magnitude '
                                       '1/4..4 (entropy: mixed signs, exact zero entries for the cost only), price zero or vector; cost within '
